@@ -6,7 +6,7 @@ V = "/verif"
 catch = json.load(open(V + "/seeded/CATCH.json")) if os.path.exists(V + "/seeded/CATCH.json") else {}
 print("| seed | changed function(s) | what it breaks (one line) | check exit | reporting rule(s) |")
 print("|---|---|---|---|---|")
-for d in sorted(glob.glob(V + "/seeded/*/")):
+for d in sorted(x for x in glob.glob(V + "/seeded/*/") if not x.rstrip("/").endswith("retired")):
     s = os.path.basename(d.rstrip("/"))
     m = json.load(open(d + "meta.json"))
     fn = ", ".join(m.get("functions", []))[:90]
